@@ -5,20 +5,20 @@ import json, subprocess
 
 CLAIMED = {
  "C14": dict(level="model_checking", engine="E1 sched",
-   technique="stateless model checking: exhaustive preemption-bounded DFS over schedules of real goroutines under a controlled scheduler (sync/atomic shim injected by -overlay), vector-clock happens-before race check on every execution; plus a separate free-running -race pass",
-   text="Every interleaving, up to the stated preemption bound per scenario (quick: 2, thorough: 3-5), of 2-3 goroutines running real read-only queries (Loop/Polygon ContainsPoint, Contains/IntersectsCell, loop relations, ContainsPointQuery, CrossingEdgeQuery, closest/furthest EdgeQuery) on fresh shared geometry whose index is unbuilt, built, or becomes built mid-flight, is executed on the implementation; each execution is checked for serial answers, panics, deadlock, a sequentially-equal final index and happens-before races on the hooked shared state.",
+   technique="stateless model checking of the real code: (a) exhaustive preemption-bounded DFS over schedules of real goroutines under a controlled cooperative scheduler (sync/atomic shim injected by -overlay), (b) unbounded exploration of ALL interleavings with state caching on (per-thread observation hash, per-location shared state) keys; vector-clock happens-before race check on every execution; plus a separate free-running -race pass of the same scenario bodies",
+   text="Every interleaving up to the stated preemption bound per scenario (quick: 2, thorough: 3-5) and, in the unbounded mode, every interleaving without a bound (quick: all 2-thread scenarios; thorough: 2 and 3 threads), of 2-3 goroutines running real read-only queries (Loop/Polygon ContainsPoint, Contains/IntersectsCell, loop relations, ContainsPointQuery, CrossingEdgeQuery, closest/furthest EdgeQuery) on fresh shared geometry (loops, polygons with 2 and 16 loops, mixed indexes) whose index is unbuilt, built, or becomes built mid-flight, is executed on the implementation; each execution is checked for serial answers, panics, deadlock, a sequentially-equal final index and happens-before races on the hooked shared state.",
    note="Sequentially consistent interleavings at sync/atomic operations and verifAccess hooks only (weak-memory behaviour is represented by the race check); unhooked shared locations are covered only by the non-exhaustive free-running -race pass; bounded number of threads/ops per scenario.",
    design="DESIGN.md §3.4, §6 C14"),
 
  "C13": dict(level="model_checking", engine="E2 opseq (+E1 shim for deadlock detection)",
    technique="explicit-state model checking: breadth-first search over operation histories on the real objects (replay-from-scratch successors, states merged on the implementation's own internal state), differential oracle against fresh objects; full no-merge enumeration for query-object reuse",
-   text="All histories up to the stated depth over the alphabets add-shape/build/reset/query-panel (ShapeIndex), invert/query (Loop with 8/40/100 vertices, Polygon with hole / two shells) and FindEdges/Distance/IsDistanceLess/IsDistanceGreater/conservative tests on one reused Closest/FurthestEdgeQuery, CrossingEdgeQuery and ContainsPointQuery are executed on the implementation; after each history the last answer must equal the answer of fresh objects holding the same geometry and user options; deadlock and non-termination are detected structurally through the sync shim.",
-   note="Bounded depth and alphabets; Remove is outside the property's alphabet; state merging uses a dump of the implementation's internal index state (over-fine, so it can only cost time).",
+   text="All histories up to the stated depth over the alphabets add-shape/build/reset/query-panel/reused-query-panel (ShapeIndex), invert/query (Loop with 8/40/100 vertices incl. loops containing a pole, Polygon with hole / two shells), add-cluster/Reset under a long-lived EdgeQuery and FindEdges/Distance/IsDistanceLess/IsDistanceGreater/conservative tests on one reused Closest/FurthestEdgeQuery, CrossingEdgeQuery and ContainsPointQuery are executed on the implementation; after each history the last answer must equal the answer of fresh objects holding the same geometry and user options; deadlock and non-termination are detected structurally through the sync shim.",
+   note="Bounded depth and alphabets; Remove is outside the property's alphabet; state merging uses a dump of the implementation's internal state (index status, pending position, cell contents, cached bounds, option values) plus the creation history of harness-side long-lived query objects (over-fine, so it can only cost time).",
    design="DESIGN.md §3.5, §6 C13"),
 
  "C15": dict(level="fault_enumeration", engine="E4 faults",
    technique="exhaustive fault enumeration: every truncation, single-byte substitution, spliced varint pattern, float pattern, count-field boundary value (and pairs) and version byte of a corpus of valid encodings, each fed to all nine real Decode methods in worker sub-processes (address-space capped), returned values exercised through a query panel",
-   text="Every mutant of the stated classes of every corpus entry (all nine types, both polygon formats, snapped / off-centre / bound-encoded / zero-vertex loops) is decoded by every Decode method; a panic, an abnormal process exit, a stall, an accepted over-limit count, more than 64 MB allocated for an over-limit count, or a panic while querying a returned value is a violation.",
+   text="Every mutant of the stated classes of every corpus entry (all nine types, both polygon formats, snapped / off-centre / bound-encoded / zero-vertex loops, 13- and 14-loop polygons incl. a zero-vertex loop) is decoded by every Decode method; a panic, an abnormal process exit, a stall, an accepted over-limit count, more than 64 MB allocated for an over-limit count, or a panic while querying a returned value is a violation; every ordered pair of corpus entries of a type is also decoded into the same value (decode-into-used-value).",
    note="Enumeration is exhaustive over the corpus x mutation classes, not over all byte strings; mutants that declare a within-limit giant count are counted but not run (documented limits permit 1.2 GB allocations); termination is observed by a watchdog.",
    design="DESIGN.md §3.7, §6 C15"),
 
@@ -35,7 +35,7 @@ CLAIMED = {
 
  "C04": dict(level="exploration", engine="E3 enum",
    technique="bounded-exhaustive enumeration: every probe point (vertices, edge points, 1-ulp neighbours, structural points) against every tile of sphere tilings (exactly-once counting needs no oracle) and against an exact crossing-parity reference on every evaluation path; every cyclic ray configuration for the vertex rule",
-   text="Every probe is contained by exactly one tile of each tiling (faces, all cells of levels 1-3, meridian wedges with 42-102 vertices, loop+inverse, polygon+complement); brute force, ContainsPoint before/after the index exists, ContainsPointQuery and the one-loop polygon equal the exact parity of edge crossings on every catalogue loop and probe; containsCenter of every index cell equals the reference.",
+   text="Every probe is contained by exactly one tile of each tiling (faces, all cells of levels 1-3, meridian wedges with 42-102 vertices, loop+inverse, polygon+complement); brute force, ContainsPoint before/after the index exists, ContainsPointQuery and the one-loop polygon equal the exact parity of edge crossings on every catalogue loop and probe; containsCenter of every index cell equals the reference; loops inverted after their index was built and used are queried with a fresh history per probe.",
    note="Loops of 3..102 vertices (around the 32-vertex threshold), not 10^4 (DESIGN L2); reference uses exact determinants with the documented perturbation.",
    design="DESIGN.md §6 C04"),
  "C06": dict(level="exploration", engine="E3 enum",
@@ -93,12 +93,12 @@ CLAIMED = {
 
  "C05": dict(level="exploration", engine="E3 enum",
    technique="bounded-exhaustive enumeration: region catalogue x RegionCoverer option grid x the five covering methods, region predicates on cell lattices around every boundary, and every rectangle over a cell's characteristic latitude/longitude alphabet; membership oracle = the region's own ContainsPoint for simple regions and exact crossing parity for loops/polygons, strictly interior probes for the one-sided claims",
-   text="Every covering contains every contained probe, every interior-covering cell lies inside the region, MinLevel/MaxLevel/LevelMod are honoured, ContainsCell=true and IntersectsCell=false are one-sidedly safe, on every region x configuration of the grid.",
+   text="Every covering contains every contained probe, every interior-covering cell lies inside the region, MinLevel/MaxLevel/LevelMod are honoured, ContainsCell=true and IntersectsCell=false are one-sidedly safe, on every region x configuration of the grid; a cap grid (centres on a 10/5-degree grid x 24 radii dense around the hemisphere) against all coarse cells with 1024 interior probes each.",
    note="Probes accuse only when more than 1e-12 rad from a boundary; MaxCells is soft and not asserted; configurations that would need > 30,000 cells are skipped and counted.",
    design="DESIGN.md §6 C05"),
  "C10": dict(level="exploration", engine="E3 enum",
    technique="bounded-exhaustive enumeration: region catalogue x probe sets (vertices with ulp neighbours, dense edge points, the 300-bit latitude extremum of every edge), all vertex pairs x third vertices of an adversarial alphabet for RectBounder, constructed containing pairs for ExpandForSubregions, all subsets of a point alphabet for the convex hull; exact containment and exact orientation signs as oracle",
-   text="RectBound / CapBound / CellUnionBound contain every contained probe with no slack on the rect bounds; RectBounder's closed-chain guarantee; ExpandForSubregions dominates the bound of every contained loop; hulls are convex by exact signs and contain or have as vertex every input point.",
+   text="RectBound / CapBound / CellUnionBound (of constructed and of decoded regions, incl. rectangles 180-360 degrees wide) contain every contained probe with no slack on the rect bounds; RectBounder's closed-chain guarantee; ExpandForSubregions dominates the bound of every contained loop; hulls are convex by exact signs and contain or have as vertex every input point.",
    note="Two ulp-level findings (unpadded cap-shaped bounds, D24/D25) are recorded as known findings; a missing constant is detectable, sufficiency of the constants is not (DESIGN L1).",
    design="DESIGN.md §6 C10"),
  "C16": dict(level="exploration", engine="E3 enum",
@@ -148,8 +148,8 @@ def main():
             "add_only": True,
         },
         "engines": [
-            {"name": "E1 sched", "path": "/verif/mc/sched + /verif/shim", "serves_properties": ["C14", "C13"], "kind_free_text": "hand-written controlled cooperative scheduler + preemption-bounded DFS (stateless model checking of the real code)"},
-            {"name": "E2 opseq", "path": "/verif/mc/opseq", "serves_properties": ["C13", "C03", "C08", "C11"], "kind_free_text": "explicit-state breadth-first search over operation histories, every transition calls the real method"},
+            {"name": "E1 sched", "path": "/verif/mc/sched + /verif/shim", "serves_properties": ["C14", "C13"], "kind_free_text": "hand-written controlled cooperative scheduler + preemption-bounded DFS and unbounded state-caching exploration (stateless model checking of the real code)"},
+            {"name": "E2 opseq", "path": "/verif/mc/checks/c13.go (+ c03.go, c11.go)", "serves_properties": ["C13", "C03", "C08", "C11"], "kind_free_text": "explicit-state breadth-first search over operation histories, every transition calls the real method"},
             {"name": "E3 enum", "path": "/verif/mc/checks", "serves_properties": ["C01","C02","C04","C05","C06","C07","C09","C10","C12","C16","C17","C18","C19","C20"], "kind_free_text": "bounded-exhaustive enumeration of finite input lattices against exact reference models"},
             {"name": "E4 faults", "path": "/verif/mc/checks/c15.go", "serves_properties": ["C15"], "kind_free_text": "exhaustive byte-fault enumeration over a corpus of valid encodings, decoders run in worker sub-processes"},
         ],
